@@ -96,12 +96,44 @@ theorem rowsOf_clear (s : Sys) (o o' : Nat) :
       simp [hx, h]
     · simp [hx]
 
+theorem findLastAux_spec (rows : List Rec) (c : H) (n k : Nat) :
+    findLastAux rows c n = some k ↔
+      (k < n ∧ (rows[k]?.map (·.commit)) = some c ∧
+        ∀ j, k < j → j < n → (rows[j]?.map (·.commit)) ≠ some c) := by
+  induction n with
+  | zero => simp [findLastAux]
+  | succ n ih =>
+    unfold findLastAux
+    by_cases h : (rows[n]?.map (·.commit)) = some c
+    · simp only [h, if_true, Option.some.injEq]
+      constructor
+      · intro e; subst e; exact ⟨by omega, h, fun j h1 h2 => by omega⟩
+      · intro ⟨h1, h2, h3⟩
+        by_cases e : n = k
+        · exact e
+        · exact absurd h (h3 n (by omega) (by omega))
+    · simp only [h, if_false]
+      rw [ih]
+      constructor
+      · intro ⟨h1, h2, h3⟩
+        refine ⟨by omega, h2, fun j h4 h5 => ?_⟩
+        by_cases e : j = n
+        · subst e; exact h
+        · exact h3 j h4 (by omega)
+      · intro ⟨h1, h2, h3⟩
+        have : k ≠ n := by intro e; subst e; exact h h2
+        exact ⟨by omega, h2, fun j h4 h5 => h3 j h4 (by omega)⟩
+
+theorem findLast_spec (rows : List Rec) (c : H) (k : Nat) :
+    findLast rows c = some k ↔
+      (k < rows.length ∧ (rows[k]?.map (·.commit)) = some c ∧
+        ∀ j, k < j → j < rows.length → (rows[j]?.map (·.commit)) ≠ some c) :=
+  findLastAux_spec rows c rows.length k
+
 theorem findLast_some {rows : List Rec} {c : H} {k : Nat} (h : findLast rows c = some k) :
     k < rows.length ∧ (rows[k]?.map (·.commit)) = some c := by
-  unfold findLast at h
-  have hm := List.mem_of_getLast? h
-  simp only [List.mem_filter, List.mem_range, decide_eq_true_eq] at hm
-  exact hm
+  have := (findLast_spec rows c k).mp h
+  exact ⟨this.1, this.2.1⟩
 
 end Sos.Log
 
